@@ -19,4 +19,17 @@ PROPS = {
         "exhaustive": True,
         "assumptions": ["math/big Add/Cmp behave as integer + and comparison"],
     },
+    "C09": {
+        "level_text": "Lean theorems per method (fixed, sliding, run-length, hybrid), for every x, K >= 1, T: terms sum to x, "
+                      "after sorting every term lies strictly below the exponent of every later term (strictly increasing "
+                      "exponents + non-overlap), d > 0, per-method shape, dictionary = strictly sorted distinct d; "
+                      "decomposition of x >= 1 non-empty. Tied to alg/dict/dict.go by exact-output correspondence.",
+        "rule": "x < 2^10 (quick) / 2^13 (thorough) x K in 1..8 x T in 0..9 x {fixed, sliding, run-length} exhaustively, hybrid "
+                "for x < 2^9 / 2^12; 300 / 3000 structured values up to 1024 bits (2^k, 2^k-1, 2^k-c, Solinas-like, runs of "
+                "length exactly K/K+1/T/T+1, sparse, dense, runs with holes) with K in 1..130, T in 0..130, all four methods; "
+                "non-trivial = at least two terms; distinct = distinct case line",
+        "exhaustive": True,
+        "assumptions": ["math/big Bit/BitLen/Lsh/Rsh/And/Xor/Sub behave as on naturals",
+                        "sort.Slice returns a sorted permutation (exponents are distinct, so the result is unique)"],
+    },
 }
